@@ -55,11 +55,24 @@ func (w *InformerWorker) WorkerName() string {
 func (w *InformerWorker) Init() {
 	// Add event handler when we get JobConfig updates.
 	w.jobconfigInformer.Informer().AddEventHandler(cache.ResourceEventHandlerFuncs{
+		AddFunc: w.handleAdd,
 		UpdateFunc: func(oldObj, newObj interface{}) {
 			w.handleUpdate(oldObj, newObj)
 		},
 		DeleteFunc: w.enqueueFlush,
 	})
+}
+
+// handleAdd makes sure that a JobConfig which is created while the controller is
+// running will be scheduled too. This is not an update of a JobConfig that is
+// already being scheduled, so it does not go through the UpdateHandler.
+func (w *InformerWorker) handleAdd(obj interface{}) {
+	rjc, err := eventhandler.Executionv1alpha1JobConfig(obj)
+	if err != nil {
+		klog.ErrorS(err, "croncontroller: unable to handle event", "worker", w.WorkerName())
+		return
+	}
+	w.updatedConfigs <- &configUpdate{jobConfig: rjc, added: true}
 }
 
 func (w *InformerWorker) handleUpdate(oldObj, newObj interface{}) {
@@ -104,7 +117,7 @@ func (w *InformerWorker) enqueueFlush(obj interface{}) {
 }
 
 type updateHandler struct {
-	updateChan chan *execution.JobConfig
+	updateChan chan *configUpdate
 }
 
 var _ UpdateHandler = (*updateHandler)(nil)
@@ -114,5 +127,5 @@ func NewUpdateHandler(ctrlContext *Context) UpdateHandler {
 }
 
 func (d *updateHandler) OnUpdate(jobConfig *execution.JobConfig) {
-	d.updateChan <- jobConfig
+	d.updateChan <- &configUpdate{jobConfig: jobConfig}
 }
